@@ -657,6 +657,11 @@ func (rm *room) mutatePL(before map[ref.Key]string, actor user, honest bool) map
 			k := sim.Pick(t, []string{"m.room.topic", "m.room.name", "m.room.power_levels", "org.example.thing", "m.room.message", "m.reaction"})
 			if _, has := ev[k]; has && t.Chance(400) {
 				delete(ev, k) // the type falls back to its default
+				if t.Bool() {
+					// ... and another entry comes in its place: the map does not shrink
+					ev[sim.Pick(t, []string{"m.room.avatar", "m.room.canonical_alias", "org.example.other"})] = level()
+					rm.r.Probe("pl_events_entry_swapped")
+				}
 			} else {
 				ev[k] = level()
 			}
